@@ -104,6 +104,12 @@ def gen_plan(seed, tier):
                       for _ in range(cfg["ncon"])]
     cfg["down_handler_sends"] = Rng(mix(seed, "dhs")).chance(0.5)
     cfg["dpid0"] = Rng(mix(seed, "dpid0")).chance(0.25)
+    # select reports an exceptional condition (urgent data) on a connection's
+    # socket right after this step's message was queued, while the deferred
+    # sender holds a backlog for it: the OpenFlow task treats that as the end
+    # of the connection; the stream up to then must stay a prefix
+    cfg["exc_at"] = Rng(mix(seed, "ctlexc")).pick([None, None, None, None,
+                                                   0, 1, 2, 4])
     for i in range(r.randint(2, 10)):
       steps.append({"con": r.randrange(cfg["ncon"]),
                     # (4096 = the deferred sender's slice size: exact
@@ -447,6 +453,7 @@ def _drive_ctl(sim, plan, known, hit):
   queued = [b""] * ncon
   base = [0] * ncon
   state = {"go": False, "sent_all": False, "viol": None}
+  exc_on = set()      # connections whose socket reported an exceptional cond.
   ds = O1.deferredSender
   orig_ds_send = ds.send
 
@@ -506,6 +513,21 @@ def _drive_ctl(sim, plan, known, hit):
           queued[ci] += data
           con.send(data)
           sim.ev("queued", ci, len(data))
+          if cfg.get("exc_at") == i and not con.disconnected \
+              and con in ds._dataForConnection and not peers[ci].srv.tx_dead:
+            peers[ci].srv.exc_flag = True
+            exc_on.add(ci)
+            sim.probes["ctl_exceptional_with_backlog"] += 1
+            if st.get("n", 0) % 2 == 0 and eng.me() is not None:
+              # the sending handler is not done yet: its next message follows
+              # in the same slice, while the sender thread gets to run (the
+              # OpenFlow task, a task like this one, does not)
+              for _ in range(300):
+                if con not in ds._dataForConnection:
+                  break
+                eng.preempt()
+              sim.probes["ctl_exceptional_then_send_in_same_slice"] += 1
+              continue
         if st.get("gap"):
           yield 0.05
         else:
@@ -550,6 +572,9 @@ def _drive_ctl(sim, plan, known, hit):
         if p.srv.tx_dead:
           if not world.events_for(p.con_id, "ConnectionDown", "nexus"):
             return False
+        elif i in exc_on and world.events_for(p.con_id, "ConnectionDown",
+                                              "nexus"):
+          pass
         elif len(p.srv.accepted) - base[i] < len(queued[i]):
           return False
       return True
@@ -598,6 +623,17 @@ def _drive_ctl(sim, plan, known, hit):
         raise Violation("ctl/write-after-fatal", "connection %d: %d send() "
                         "call(s) on the socket after it had reported a "
                         "fatal error" % (i, p.srv.sends_after_fatal))
+    elif i in exc_on and (downs or downs_c):
+      # the exceptional condition ended the connection (what the OpenFlow
+      # task does with it): once, and what was accepted is a prefix
+      sim.probes["ctl_exceptional_ended_connection"] += 1
+      if len(downs) != 1 or len(downs_c) != 1:
+        raise Violation("ctl/down-count", "connection %d ended on an "
+                        "exceptional condition: ConnectionDown raised %d "
+                        "time(s) on the nexus, %d on the connection"
+                        % (i, len(downs), len(downs_c)))
+      if not queued[i].startswith(acc):
+        raise Violation("ctl/stream-corrupted", "connection %d" % i)
     else:
       if downs or downs_c:
         raise Violation("ctl/spurious-down", "connection %d was reported "
